@@ -1,9 +1,12 @@
 import PV.Driver.HT
 import PV.Driver.SB
 import PV.Driver.Tree
+import PV.Driver.RWLock
 def main (args : List String) : IO UInt32 := do
   match args with
   | ["ht"] => PV.Driver.HT.run; return 0
   | ["sb"] => PV.Driver.SB.run; return 0
   | ["tree"] => PV.Driver.Tree.run; return 0
+  | ["rwlock"] => PV.Driver.RWLock.run; return 0
+  | ["rwlock-posix"] => PV.Driver.RWLock.runPosix; return 0
   | _ => IO.eprintln "usage: pvdriver <family>  (ops on stdin)"; return 2
